@@ -100,7 +100,9 @@ def model_value(model, v, depth=0):
             d['attrs']['_vc_tags'] = {t: [model_value(model, p), model_value(model, val)]
                                       for t, (p, val) in v.attrs['_vc_tags'].items()}
         return d
-    return v
+    if v is None or isinstance(v, (bool, int, float, str, Fraction)):
+        return v
+    return '<%s>' % type(v).__name__
 
 
 def snapshot_value(v, depth=0):
@@ -526,6 +528,7 @@ class Verifier:
                 ob.info['params'] = params_entry
                 ob.info['case'] = ci
                 ob.info['witness'] = dict(eng.witness)
+                ob.info['spec_env'] = {k: v for k, v in eng.spec_env.items() if isinstance(v, (Sym, int, str, bool))}
                 if ob.name not in groups:
                     groups[ob.name] = []
                     order.append(ob.name)
@@ -608,6 +611,9 @@ class Verifier:
             wit = ob.info.get('witness') or {}
             if wit:
                 inputs['witness'] = {k: model_value(model, v) for k, v in wit.items()}
+            spec_vals = ob.info.get('spec_env') or {}
+            if spec_vals:
+                inputs['ghost'] = {k: model_value(model, v) for k, v in spec_vals.items()}
         except Exception as e:
             return {'inputs': None, 'note': 'model not concretisable: %s' % e}
         out = {'inputs': jsonable(inputs), 'info': {k: jsonable(v) if not isinstance(v, (Sym, SymSeq, tuple, list, dict, GenResult)) else None
